@@ -158,22 +158,26 @@ func allScenarios() []scenBuilder {
 			if err != nil {
 				return nil, err
 			}
-			v, err := b.view("p0", keepAll, "main", 1)
+			v, err := b.view("p0", keepAll, "main", 1, true)
 			if err != nil {
 				return nil, err
 			}
-			ve, err := b.view("p0early", keepUpTo(5), "main", 0)
+			ve, err := b.view("p0early", keepUpTo(5), "main", 0, true)
 			if err != nil {
 				return nil, err
 			}
-			return []*Scen{newScen("p0", b, v), newScen("p0early", b, ve)}, nil
+			vl, err := b.view("p0lag", keepAll, "main", 1, false)
+			if err != nil {
+				return nil, err
+			}
+			return []*Scen{newScen("p0", b, v), newScen("p0early", b, ve), newScen("p0lag", b, vl)}, nil
 		}},
 		{"nofin", func(tier string, rng *rand.Rand) ([]*Scen, error) {
 			b, err := buildNofin(12)
 			if err != nil {
 				return nil, err
 			}
-			v, err := b.view("nofin", keepAll, "main", 0)
+			v, err := b.view("nofin", keepAll, "main", 0, true)
 			if err != nil {
 				return nil, err
 			}
@@ -184,11 +188,11 @@ func allScenarios() []scenBuilder {
 			if err != nil {
 				return nil, err
 			}
-			v, err := b.view("alt", keepAll, "main", 0)
+			v, err := b.view("alt", keepAll, "main", 0, true)
 			if err != nil {
 				return nil, err
 			}
-			v2, err := b.view("altmid", keepUpTo(11), "main", 1)
+			v2, err := b.view("altmid", keepUpTo(11), "main", 1, true)
 			if err != nil {
 				return nil, err
 			}
@@ -199,7 +203,7 @@ func allScenarios() []scenBuilder {
 			if err != nil {
 				return nil, err
 			}
-			v, err := b.view("big", keepAll, "main", 0)
+			v, err := b.view("big", keepAll, "main", 0, true)
 			if err != nil {
 				return nil, err
 			}
@@ -212,11 +216,11 @@ func allScenarios() []scenBuilder {
 			if err != nil {
 				return nil, err
 			}
-			v, err := b.view("late", keepAll, "main", 0)
+			v, err := b.view("late", keepAll, "main", 0, true)
 			if err != nil {
 				return nil, err
 			}
-			v2, err := b.view("latebel", keepUpTo(10), "main", 0)
+			v2, err := b.view("latebel", keepUpTo(10), "main", 0, true)
 			if err != nil {
 				return nil, err
 			}
